@@ -22,6 +22,9 @@ type verifServerHooks struct {
 	ForceSuiteTLS13 uint16
 	// TolerateCookieEcho accepts a cookie extension in the second ClientHello.
 	TolerateCookieEcho bool
+	// ForceCurveTLS12 makes a TLS 1.0-1.2 server run ECDHE on this curve whatever the client's
+	// supported_groups say (the server behaves as if the client had listed exactly this curve).
+	ForceCurveTLS12 CurveID
 }
 
 // VerifServerHooks is the exported name of the hook set.
